@@ -168,7 +168,8 @@ def is_zip_call(t: T) -> bool:
 # pure methods of a constant string (on constant string arguments)
 _STR_FOLDS = frozenset((".lower", ".upper", ".strip", ".lstrip", ".rstrip",
                         ".startswith", ".endswith", ".casefold", ".title",
-                        ".capitalize", ".removeprefix", ".removesuffix"))
+                        ".capitalize", ".removeprefix", ".removesuffix",
+                        ".index", ".find", ".count"))
 
 
 def _generator_as_genexp(fn: ast.FunctionDef) -> Optional[ast.GeneratorExp]:
@@ -236,6 +237,7 @@ class Interp:
                  auto_inline: bool = True,
                  known_len: Optional[Callable[[T], Optional[int]]] = None):
         self._narrow = []
+        _ENUM_MEMBERS[0] = prog.enum_members
         # lengths the *rule* knows from the documented data layout (e.g. a
         # positions array has three columns); used to unroll a zip()
         self.known_len = known_len
@@ -1929,7 +1931,9 @@ class Interp:
             g = n.generators[0]
             n0 = len(self.events)
             it = self.unname(self.eval(g.iter, frame, live))
-            items = literal_items(it, self.unname)
+            # (a table comprehension over the members of an enumeration is
+            # the table; loops over them keep their loop form)
+            items = literal_items(it, self.unname, enums=(kind == "dict"))
             if items is not None and 0 < len(items) <= 8:
                 saved_env = dict(frame.env)
                 out = []
@@ -2669,13 +2673,20 @@ def _canon(t: T, unname=lambda v: v):
     return ("t",) + tuple(_canon(x, unname) for x in t.args)
 
 
-def literal_items(it: T, unname=lambda v: v, known_len=None
-                  ) -> Optional[List[T]]:
+_ENUM_MEMBERS = [None]     # set by Interp: qualname -> member names or None
+
+
+def literal_items(it: T, unname=lambda v: v, known_len=None,
+                  enums: bool = False) -> Optional[List[T]]:
     """the items of an iteration space that is known completely: a literal
     tuple / list, range(consts), enumerate(...) or zip(...) of those; in a
     zip also a sequence whose length the path condition fixes
     (`known_len`): its items are seq[0] .. seq[n-1]"""
     it = unname(it)
+    if enums and it.op == "cls" and _ENUM_MEMBERS[0] is not None:
+        ms = _ENUM_MEMBERS[0](it.args[0])
+        if ms is not None and len(ms) <= 12:
+            return [tm.enum(it.args[0], m) for m in ms]   # for m in Enum
     if it.op in ("tuple", "list"):
         if any(x.op == "star" for x in it.args):
             return None
